@@ -5079,14 +5079,19 @@ def _r_star_path_table(ctx, rule):
     sp = repo.func(UT_ + ':star_path')
     m = repo.mod(UT_)
     globs = {}
-    for nm in {x.id for x in ast.walk(sp) if isinstance(x, ast.Name)}:
-        if repo.has_func(UT_ + ':' + nm):
-            globs[nm] = repo.func(UT_ + ':' + nm)
-        elif nm in m.assigns and len(m.assigns[nm]) == 1:
-            v = m.assigns[nm][0]
-            if isinstance(v, ast.Call) and dotted(v.func) == 're.compile' and v.args and isinstance(const_val(v.args[0]), str):
-                flags = 0
-                globs[nm] = _re.compile(const_val(v.args[0]), flags)
+    todo = [sp]
+    while todo:         # names used by star_path and, transitively, by the sibling helpers it calls
+        f_ = todo.pop()
+        for nm in {x.id for x in ast.walk(f_) if isinstance(x, ast.Name)}:
+            if nm in globs:
+                continue
+            if repo.has_func(UT_ + ':' + nm):
+                globs[nm] = repo.func(UT_ + ':' + nm)
+                todo.append(globs[nm])
+            elif nm in m.assigns and len(m.assigns[nm]) == 1:
+                v = m.assigns[nm][0]
+                if isinstance(v, ast.Call) and dotted(v.func) == 're.compile' and len(v.args) == 1 and not v.keywords and isinstance(const_val(v.args[0]), str):
+                    globs[nm] = _re.compile(const_val(v.args[0]))
     table = [(('cells', 0, 'source'), '/cells/*/source'), (('cells', 12, 'outputs', 3, 'data', 'text/plain'), '/cells/*/outputs/*/data/text/plain'),
              (('cells', '7', 'metadata'), '/cells/*/metadata'), (('cells', '12', 'id'), '/cells/*/id'), (('metadata', 'kernelspec', 'name'), '/metadata/kernelspec/name'), ((), '/'),
              (('cells',), '/cells'), (['cells', 3], '/cells/*'), (('metadata', 'v2', 'x1'), '/metadata/v2/x1'), (('cells', 0, 'attachments', 'image.png'), '/cells/*/attachments/image.png')]
